@@ -52,6 +52,8 @@ def configs() -> Dict[str, dict]:
     add("unknown-parameter", nodes("src_ctx", "bogus") + VALID_TAIL, invalid="config")
     add("probe-without-key", nodes("src_ctx", "probe_nokey") + VALID_TAIL, invalid="config")
     add("type-adjacent", nodes("src_ctx", "sum") + VALID_TAIL, invalid="config")
+    add("type-source-after-data", nodes("src_ctx", "mul3", "src") + VALID_TAIL, invalid="config")       # a source does not accept the data channel's float
+    add("type-source-after-probe", nodes("src_ctx", "probe_r", "srcdef") + VALID_TAIL, invalid="config")
     add("type-across-context-node", nodes("src_ctx", "probe_r", "tmpl_a", "slice_mul") + VALID_TAIL, invalid="config")
     add("rs-length-mismatch", base, {"blocks": [{"mode": "by_position", "context": {"value": [1.0, 2.0], "a": [0.0]}}]}, invalid="runspace", needs=())
     add("rs-duplicate-keys", base, {"blocks": [{"mode": "by_position", "context": {"value": [1.0]}}, {"mode": "by_position", "context": {"value": [2.0]}}]}, invalid="config", needs=())
